@@ -144,6 +144,7 @@ class Recorder:
         self.last_post = {}      # env id -> copy of current tensor after the last recorded call
         self.envs = {}
         self.counts = {}
+        self.held = {}           # id(State object the harness keeps) -> (object, sha of its tensor when it was kept)
 
     def close(self):
         self.f.close()
@@ -254,6 +255,7 @@ class Recorder:
     def reset(self, eid, seed=None):
         env = self.envs[eid]
         before = env.current_state.tensor.copy()
+        cur_obj = env.current_state
         with self.trip.scripted(0.5):
             try:
                 ret = env.reset() if seed is None else env.reset(seed=seed)
@@ -261,6 +263,7 @@ class Recorder:
                 self.last_ret, self.last_exc = None, exc
                 return self.raised(eid, "reset", exc, "C10", "reset_is_total")
         self.last_ret, self.last_exc = ret, None
+        self._rehold(cur_obj)
         after = env.current_state.tensor
         arity = len(ret) if isinstance(ret, tuple) else -1
         obs = ret[0] if arity >= 1 else ret
@@ -290,6 +293,7 @@ class Recorder:
         env = self.envs[eid]
         arg_copy = arg.copy() if isinstance(arg, np.ndarray) else None
         before = env.current_state.tensor.copy()
+        cur_obj = env.current_state
         steps_before = int(env.steps)
         with self.trip.scripted(u):
             try:
@@ -298,6 +302,7 @@ class Recorder:
                 self.last_ret, self.last_exc = None, exc
                 return self.raised(eid, "step", exc, "C10", "every_member_accepted", dict(a=adesc))
         self.last_ret, self.last_exc = ret, None
+        self._rehold(cur_obj)
         after_state = env.current_state
         after = after_state.tensor
         arity = len(ret) if isinstance(ret, tuple) else -1
@@ -323,11 +328,25 @@ class Recorder:
         self.last_post[eid] = after.copy()
         return self.emit(ev)
 
+    def _rehold(self, state):
+        """step() / reset() may legitimately work in place on the object that was current when they were called
+        (C13 speaks about generative_step only): a kept reference to it is re-read afterwards"""
+        if id(state) in self.held:
+            self.held[id(state)] = (state, sha(state.tensor))
+
+    def hold(self, state):
+        """the harness keeps this State object (as a planner would); when it is used again it must still be the same"""
+        self.held[id(state)] = (state, sha(state.tensor))
+        return state
+
     def genstep(self, eid, state, spec, u, grp=None):
         """state: an implementation State object (e.g. one returned earlier), or None = env.current_state"""
         env = self.envs[eid]
         arg, adesc = self.action_arg(env, spec)
         act_copy = arg.copy() if isinstance(arg, np.ndarray) else None
+        held_same = None
+        if state is not None and id(state) in self.held:
+            held_same = bool(self.held[id(state)][1] == sha(state.tensor))
         if state is None:
             state = env.current_state
         argt = state.tensor
@@ -365,16 +384,24 @@ class Recorder:
                   arg_modified=bool(act_copy is not None and not np.array_equal(act_copy, arg)))
         if grp is not None:
             ev["grp"] = grp
+        if held_same is not None:
+            ev["held_same"] = held_same
         return self.emit(ev), nstate
 
     def goal(self, eid, state):
         env = self.envs[eid]
         t = (state or env.current_state).tensor
+        held_same = None
+        if state is not None and id(state) in self.held:
+            held_same = bool(self.held[id(state)][1] == sha(t))
         try:
             ans = bool(env.goal_reached(state))
         except Exception as exc:   # noqa
             return self.raised(eid, "goal_reached", exc, "C06", "goal_query_any_state")
-        return self.emit(dict(ev="goal", env=eid, pre_rows=diff_rows(self.last_post[eid], t), ans=ans))
+        ev = dict(ev="goal", env=eid, pre_rows=diff_rows(self.last_post[eid], t), ans=ans)
+        if held_same is not None:
+            ev["held_same"] = held_same
+        return self.emit(ev)
 
 
 
